@@ -454,6 +454,7 @@ def check_solves(c, ps, bs, t, nodes, M, out):
                     continue
                 parts = [(np.real(rc), np.real(cf), np.real(ph)), (np.imag(rc), np.imag(cf), np.imag(ph))]
                 rhs_of = lambda rc_part: oracle_rhs_discrete(M, nb, lo, hi, fr(rc_part))
+                rhs_abs_of = lambda rc_part: [float(sum((abs(M['mass'][a][b] * x) for b, x in enumerate(fr(rc_part))), F(0))) for a in range(lo, hi)]
                 # the right-hand side the solve uses is the spline interpolating the (complex) nodal values of rho:
                 # both parts must be reproduced at the Greville points (the exact oracle above starts from these coefficients)
                 if 'colloc' not in first:
@@ -475,6 +476,8 @@ def check_solves(c, ps, bs, t, nodes, M, out):
                 rhot = [[ff(x) for x in row] for row in rt]
                 parts = [(rhot, np.real(cf), np.real(ph))]
                 rhs_of = lambda rt_part: oracle_rhs_func(t, nodes, lo, hi, rt_part)
+                rhs_abs_of = lambda rt_part: [float(sum((abs(t['w'][q] * t['mf'][cc] * N[a] * x * t['E'][cc][q] * rt_part[cc][q]) for (cc, q, x, N, dN, aN) in nodes), F(0)))
+                                              for a in range(lo, hi)]
                 if np.max(np.abs(np.imag(cf))) != 0.0:
                     _fail(out, 'DiffEqSolver._solveModeFunc:imaginary', 'real right-hand side gives a complex solution')
             for pi, (src, cfp, php) in enumerate(parts):
@@ -498,7 +501,9 @@ def check_solves(c, ps, bs, t, nodes, M, out):
                 out['n_or'] += 3
                 # residual of the code's coefficients in the exact Galerkin system
                 res = [sum((A[i][j] * cfe[lo + j] for j in range(hi - lo)), F(0)) - rhs[i] for i in range(hi - lo)]
-                scale = max([float(sum(abs(A[i][j] * cfe[lo + j]) for j in range(hi - lo)) + abs(rhs[i])) for i in range(hi - lo)] + [1e-300])
+                # (scales without cancellation: a right-hand side whose terms cancel to rounding level has a solution at rounding level)
+                rabs = rhs_abs_of(src)
+                scale = max([float(sum(abs(A[i][j] * cfe[lo + j]) for j in range(hi - lo))) + rabs[i] for i in range(hi - lo)] + [1e-300])
                 rmax = max([abs(float(v)) for v in res] + [0.0])
                 cls = 'discrete' if kind == 'd' else 'function'
                 if rmax > 1e-10 * scale:
@@ -507,6 +512,7 @@ def check_solves(c, ps, bs, t, nodes, M, out):
                           'assembled from the same tables: max residual %.3g, scale %.3g' % (m, rmax, scale))
                 # forward error, condition-number scaled
                 xmax = max([abs(float(v)) for v in xs] + [1e-300])
+                xmax = max(xmax, max(rabs + [0.0]) / max([abs(float(v)) for row in A for v in row] + [1e-300]))
                 ferr = max(abs(float(a - b)) for a, b in zip(cfe, xs))
                 if ferr > 1e-12 * max(kappa, 1.0) * xmax + 1e-300:
                     _fail(out, 'DiffEqSolver.solve:%s:forward' % cls,
